@@ -95,6 +95,38 @@ def gen_power_script(rng, tier):
     return '\n'.join(L) + '\n', meta
 
 
+def gen_powercut_script(rng):
+    """Power loss seen through the I/O tap: every blob file is cut back to what a successful sync covered, the index
+    files stay. Blobs that were closed and whose index was dumped before the cut must be served in full (the blob is
+    synced before its index is written); the blob being appended may lose its un-synced tail."""
+    K = rng.choice([4, 32])
+    L = ['cfg K=%d dup=1 group=2 bloom=none init=eager runtime=%s validate=%d' % (K, rng.choice(['mt', 'ct']), rng.choice([0, 1])), 'trace on', 'open']
+    seed = 0
+    closed_keys, tail_keys = [], []
+    for b in range(rng.choice([1, 2, 3])):
+        for _ in range(rng.randrange(1, 4)):
+            seed += 1
+            k = (seed).to_bytes(K, 'big').hex()
+            closed_keys.append(k)
+            L.append('W %s 5 %s %d %d' % (k, rng.choice(['-', 'm1']), rng.choice([1, 5, 40, 5000]), seed))
+        L.append(rng.choice(['close_active', 'close_active', 'force_update always']))
+        L.append('quiesce')
+    for _ in range(rng.randrange(0, 3)):
+        seed += 1
+        k = (seed).to_bytes(K, 'big').hex()
+        tail_keys.append(k)
+        L.append('W %s 6 - %d %d' % (k, rng.choice([5, 40]), seed))
+    L.append('#PRE')
+    for k in closed_keys + tail_keys:
+        L.append('R %s' % k)
+    L.append('nop closedkeys=%s' % ','.join(closed_keys))
+    L += ['drop', 'powercut', 'open']
+    for k in closed_keys + tail_keys:
+        L.append('R %s' % k)
+    L += ['counts', 'close']
+    return '\n'.join(L) + '\n', {'kind': 'powercut'}
+
+
 def gen_kill_script(rng):
     """Process kill with the page cache intact (no byte is lost), at the instants where an index file on disk is
     older than its blob: (a) the active blob was restored from a clean shutdown and appended to; (b) a deletion
@@ -148,6 +180,8 @@ def gen(tier, rng):
         out.append(('power%05d' % i, text))
     for i in range(80 if tier == 'quick' else 2000):
         out.append(('kill%05d' % i, gen_kill_script(rng)))
+    for i in range(40 if tier == 'quick' else 800):
+        out.append(('powercut%05d' % i, gen_powercut_script(rng)[0]))
     return out
 
 
@@ -178,6 +212,21 @@ def oracle(lines, io, spec=None):
     fails = []
     if 'drop' not in lines:
         return fails
+    if 'powercut' in lines:
+        d = lines.index('drop')
+        ck = next(l for l in lines if l.startswith('nop closedkeys=')).split('=')[1].split(',')
+        pre = {lines[i]: io[i] for i in range(d) if lines[i].startswith('R ')}
+        o = lines.index('open', d)
+        if o >= len(io) or io[o] != 'open ok':
+            return ['init failed after the power loss: %s' % (io[o] if o < len(io) else '-')]
+        for i in range(o + 1, min(len(lines), len(io))):
+            if lines[i].startswith('R '):
+                k = lines[i].split()[1]
+                if k in ck and io[i] != pre.get(lines[i]):
+                    fails.append('line %d `%s`: a record of a blob that was closed and indexed before the power loss is not served in full: `%s` before, `%s` after init (%s)' % (i, lines[i], pre.get(lines[i]), io[i], io[lines.index('powercut')][:120]))
+                elif k not in ck and io[i] != pre.get(lines[i]) and io[i] != 'R NotFound':
+                    fails.append('line %d `%s`: a record of the blob being appended is served with other content after the power loss: %s' % (i, lines[i], io[i]))
+        return fails[:4]
     if not any(l.startswith('trunc blob') for l in lines):
         # kill with the page cache intact: every answer after init equals the answer before the kill
         fails = C.spec_oracle(lines, io, spec, ('R',))
